@@ -1,7 +1,7 @@
 """C05 -- pixel operations pair channels by colour, independent of memory layout (DESIGN.md section 5, C05)
 
 Flow: table extractor (layouts of rgb/rgba/cmyk/gray/device_n.hpp, index pairs of homogeneous_color_base) ->
-lean/GilVerif/Gen/C05.lean -> lake build Props.C05 + drv_C05 -> axiom audit -> 15 harness binaries (harness/C05/main.cpp
+lean/GilVerif/Gen/C05.lean -> lake build Props.C05 + drv_C05 -> axiom audit -> 32 harness binaries (harness/C05/main.cpp
 compiled in parts, in parallel, from the tree under test) -> every ordered pair of provided layouts x pixel models x
 channel types -> model vs implementation diff and Spec judge -> verdict, evidence.
 """
@@ -17,12 +17,19 @@ PSEL = {"p565": 0, "p332": 0, "g4": 0, "c4444": 0, "p4444": 1, "p5551": 2}
 BINARIES = ([("h1_%d" % t, ("PART=1", "TSEL=%d" % t)) for t in range(3)] + [("h2_%d" % t, ("PART=2", "TSEL=%d" % t)) for t in range(3)] +
             [("p3_%d" % q, ("PART=3", "PSEL=%d" % q)) for q in range(3)] +
             [("a4_%d" % t, ("PART=4", "TSEL=%d" % t)) for t in range(3)] + [("a5_%d" % t, ("PART=5", "TSEL=%d" % t)) for t in range(3)] +
-            [("s6", ("PART=6",)), ("s7", ("PART=7",))])
+            [("s6", ("PART=6",)), ("s7", ("PART=7",))] +
+            # alg3 (three layouts, aliased arguments): one binary per channel type; rgba additionally split by the third layout
+            [("a8_%d" % t, ("PART=8", "TSEL=%d" % t)) for t in range(3)] +
+            [("a9_%d_%d" % (t, k), ("PART=9", "TSEL=%d" % t, "L3SEL=%d" % k)) for t in range(3) for k in range(4)])
+RGBA_ORDER = ["rgba", "bgra", "argb", "abgr"]          # order of rgba_ls in harness/C05/main.cpp (L3SEL)
 # packed pixels whose channels do not fill the bit field: name -> (bits per colour, carrier bits)
 SPARESETS = {"rgb": {"s432": ([4, 3, 2], 16), "s565w": ([5, 6, 5], 32), "s222": ([2, 2, 2], 8)}, "rgba": {"s5551w": ([5, 5, 5, 1], 32)}, "gray": {"sg3": ([3], 8)}}
 
 def route(op):
     w = op.split(); cs, t = w[1], w[2]
+    if w[0] == "alg3":
+        if cs == "rgba": return "a9_%d_%d" % (TYPES.index(t), RGBA_ORDER.index(w[5]) if w[5] in RGBA_ORDER else 0)
+        return "a8_%d" % TYPES.index(t)
     if w[0] == "alg": return ("a5_%d" if cs == "rgba" else "a4_%d") % TYPES.index(t)
     if w[0] == "spare": return "s7" if cs == "rgba" else "s6"
     if t in TYPES: return ("h2_%d" if cs == "rgba" else "h1_%d") % TYPES.index(t)
@@ -86,6 +93,11 @@ def gen_ops(ctx):
                         v = distinct_vals(r, n, 15)
                         w = dst_values(v, md, ms, 15)        # p2 colour-equal to p1 now and then
                         ops.append("alg %s %s %s %s %s | %s" % (cs, t, dl, sl, lst(v), lst(w)))
+                    # three layouts: first source dl, second source sl, destination / third colour base l3 (every triple, equal ones included)
+                    for l3, m3 in ls:
+                        for _ in range(reps - 1 if n >= 4 and len(ls) > 1 else reps):
+                            v = distinct_vals(r, n, 15); w = distinct_vals(r, n, 15); u = distinct_vals(r, n, 15)
+                            ops.append("alg3 %s %s %s %s %s %s | %s | %s" % (cs, t, dl, sl, l3, lst(v), lst(w), lst(u)))
                 for m in ["V", "R"] + (["P", "Q", "I"] if n >= 2 and ident(md) else []):
                     for _ in range(reps):
                         ops.append("acc %s %s %s %s %s" % (cs, t, m, dl, lst(distinct_vals(r, n, TMAX[t]))))
@@ -126,6 +138,7 @@ def nontrivial(op, maps):
     if w[0] == "pair": return nonid(w[4]) or nonid(w[6]) or w[3] != w[5]
     if w[0] == "acc": return nonid(w[4]) or w[3] != "V"
     if w[0] == "alg": return nonid(w[3]) or nonid(w[4])
+    if w[0] == "alg3": return nonid(w[3]) or nonid(w[4]) or nonid(w[5])
     if w[0] == "spare": return int(w[6]) != 0                      # spare bits pre-loaded with something
     return False
 
@@ -139,7 +152,7 @@ ASSUME = [
 
 def run(ctx, ops=None):
     regen_tables(ctx)
-    with concurrent.futures.ThreadPoolExecutor(max_workers=15) as ex:
+    with concurrent.futures.ThreadPoolExecutor(max_workers=16) as ex:
         futs = {name: ex.submit(vlib.compile_harness, ctx, "harness/C05/main.cpp", "c05_" + name, (), (), True, "-O0", defs) for name, defs in BINARIES}
         obligations, discharged = vlib.standard_proof_steps(ctx)
         bins = {name: f.result() for name, f in futs.items()}
@@ -176,13 +189,15 @@ def run(ctx, ops=None):
     kinds, combos = {}, set()
     for o in ops:
         w = o.split(); kinds[w[0]] = kinds.get(w[0], 0) + 1
-        combos.add(tuple(w[:7]) if w[0] == "pair" else tuple(w[:6]) if w[0] == "spare" else tuple(w[:5]))
+        combos.add(tuple(w[:7]) if w[0] == "pair" else tuple(w[:6]) if w[0] in ("spare", "alg3") else tuple(w[:5]))
     distinct = len({o for o in ops if nontrivial(o, maps)})
     return vlib.finish(ctx, "proof", obligations, discharged,
         rule="op lines (harness/C05/main.cpp): every ordered pair of provided layouts of each colour space (rgb 2, rgba 4, cmyk, gray, devicen2..5) x destination models "
              "{value, reference into an interleaved buffer, planar reference, planar reference bound to an interleaved pixel | packed_pixel, bit-aligned reference} x source models "
              "{value, planar reference, read-only planar reference | packed_pixel, bit-aligned reference, read-only bit-aligned reference} x {u8,u16,f32 | 6 packed size sets}, "
              "channel values distinct tags, destination initially random / colour-equal / constant; acc (every run-time index read and written) and alg lines for every layout (pair); "
+             "alg3 lines: every ordered TRIPLE of provided layouts (first source, second source, destination / third colour base), each argument mutable and const, value and planar reference, "
+             "and aliased arguments (destination is the first source / the second source / both sources one object / all three one object); "
              "spare lines: packed pixels with unused bits pre-loaded, == / != against same-type pixels with equal colours and different unused bits. "
              "non-trivial = distinct op line involving a non-identity layout or two different pixel models",
         samples=samples, distinct_nontrivial=distinct, assumptions=ASSUME, trusted_base=vlib.TRUSTED_BASE,
